@@ -168,4 +168,331 @@ theorem checkPairF_sound (src tgt : Ty) (v : Int) (hp : checkPairF src tgt = tru
       · left
         exact ⟨e, by simp [runCase, hsup, he]⟩
 
+/-! ### no saturation: floating targets -/
+
+theorem evalGuards_ok_mem (src : CTy) (s : Src) (gs : List Guard) (h : evalGuards src s gs = .ok ()) :
+    ∀ g ∈ gs, evalDisj src s g.conds = .ok false := by
+  induction gs with
+  | nil => intro g hg; simp at hg
+  | cons g0 rest ih =>
+    intro g hg
+    simp only [evalGuards] at h
+    cases hd : evalDisj src s g0.conds with
+    | ok b =>
+      cases b with
+      | true => simp [hd] at h
+      | false =>
+        simp only [hd] at h
+        rcases List.mem_cons.mp hg with rfl | hr
+        · exact hd
+        · exact ih h g hr
+    | err e => simp [hd] at h
+    | null => simp [hd] at h
+    | oob => simp [hd] at h
+    | fault => simp [hd] at h
+
+theorem evalDisj_false_mem (src : CTy) (s : Src) (cs : List (List Atom)) (h : evalDisj src s cs = .ok false) :
+    ∀ c ∈ cs, evalConj src s c = .ok false := by
+  induction cs with
+  | nil => intro c hc; simp at hc
+  | cons c0 rest ih =>
+    intro c hc
+    simp only [evalDisj] at h
+    cases hd : evalConj src s c0 with
+    | ok b =>
+      cases b with
+      | true => simp [hd] at h
+      | false =>
+        simp only [hd] at h
+        rcases List.mem_cons.mp hc with rfl | hr
+        · exact hd
+        · exact ih h c hr
+    | err e => simp [hd] at h
+    | null => simp [hd] at h
+    | oob => simp [hd] at h
+    | fault => simp [hd] at h
+
+theorem evalConj_pair (src : CTy) (s : Src) (a1 a2 : Atom) (b1 b2 : Bool)
+    (h1 : a1.eval src s = .ok b1) (h2 : a2.eval src s = .ok b2) : evalConj src s [a1, a2] = .ok (b1 && b2) := by
+  simp only [evalConj, h1]
+  cases b1 <;> cases b2 <;> simp [h2]
+
+/-- a comparison of the floating source value in a floating type at least as wide as the source -/
+def isFloatCmp (src : CTy) : Atom → Bool
+  | .cmp _ cty _ => cty.isFloat && decide (src.size ≤ cty.size)
+  | .notIsgraph _ => false
+
+theorem floatCmp_eval (src : CTy) (x : FVal) (op : Cmp) (cty : CTy) (k : Int) (h : isFloatCmp src (.cmp op cty k) = true) :
+    (Atom.cmp op cty k).eval src (.flt x) = .ok (cmpF op x k) := by
+  simp [isFloatCmp] at h
+  simp [Atom.eval, Atom.evalF, h.1, h.2]
+
+def noFaultF (src : CTy) (gs : List Guard) : Bool := gs.all fun g => g.conds.all fun c => c.all (isFloatCmp src)
+
+theorem noFault_conj (src : CTy) (x : FVal) (c : List Atom) (h : c.all (isFloatCmp src) = true) :
+    ∃ b, evalConj src (.flt x) c = .ok b := by
+  induction c with
+  | nil => exact ⟨true, rfl⟩
+  | cons a rest ih =>
+    simp only [List.all_cons, Bool.and_eq_true] at h
+    obtain ⟨b, hb⟩ := ih h.2
+    cases a with
+    | notIsgraph i => simp [isFloatCmp] at h
+    | cmp op cty k =>
+      simp only [evalConj, floatCmp_eval src x op cty k h.1]
+      cases cmpF op x k
+      · exact ⟨false, rfl⟩
+      · exact ⟨b, hb⟩
+
+theorem noFault_disj (src : CTy) (x : FVal) (cs : List (List Atom)) (h : cs.all (fun c => c.all (isFloatCmp src)) = true) :
+    ∃ b, evalDisj src (.flt x) cs = .ok b := by
+  induction cs with
+  | nil => exact ⟨false, rfl⟩
+  | cons c rest ih =>
+    simp only [List.all_cons, Bool.and_eq_true] at h
+    obtain ⟨b, hb⟩ := ih h.2
+    obtain ⟨b0, hb0⟩ := noFault_conj src x c h.1
+    simp only [evalDisj, hb0]
+    cases b0
+    · exact ⟨b, hb⟩
+    · exact ⟨true, rfl⟩
+
+theorem noFault_guards (src : CTy) (x : FVal) (gs : List Guard) (h : noFaultF src gs = true) :
+    evalGuards src (.flt x) gs = .ok () ∨ ∃ e, evalGuards src (.flt x) gs = .err e := by
+  induction gs with
+  | nil => exact Or.inl rfl
+  | cons g rest ih =>
+    simp only [noFaultF, List.all_cons, Bool.and_eq_true] at h
+    obtain ⟨b, hb⟩ := noFault_disj src x g.conds h.1
+    simp only [evalGuards, hb]
+    cases b
+    · exact ih (by simpa [noFaultF] using h.2)
+    · exact Or.inr ⟨g.err, rfl⟩
+
+/-- `[val > F, val <= K]` with `F ≤ B` and `srcMax ≤ K`: refuses every finite value in `(B, srcMax]` -/
+def upperTest (src : CTy) (B srcMax : Nat) (c : List Atom) : Bool :=
+  match c with
+  | [.cmp .gt c1 F, .cmp .le c2 K] =>
+    isFloatCmp src (.cmp .gt c1 F) && isFloatCmp src (.cmp .le c2 K) && decide (F ≤ (B : Int)) && decide ((srcMax : Int) ≤ K)
+  | _ => false
+
+/-- `[val < F, val >= K]` with `-B ≤ F` and `K ≤ -srcMax`: refuses every finite value in `[-srcMax, -B)` -/
+def lowerTest (src : CTy) (B srcMax : Nat) (c : List Atom) : Bool :=
+  match c with
+  | [.cmp .lt c1 F, .cmp .ge c2 K] =>
+    isFloatCmp src (.cmp .lt c1 F) && isFloatCmp src (.cmp .ge c2 K) && decide (-(B : Int) ≤ F) && decide (K ≤ -(srcMax : Int))
+  | _ => false
+
+def guardBounds (src : CTy) (B srcMax : Nat) (g : Guard) : Bool :=
+  g.conds.any (upperTest src B srcMax) && g.conds.any (lowerTest src B srcMax)
+
+theorem den_pos (e : Int) : (0 : Int) < (FVal.den e : Int) := by
+  have := pow2_pos (-e).toNat
+  simp only [FVal.den]; omega
+
+/-- a finite value of magnitude at most `srcMax` that passes a guard with `guardBounds` has magnitude at most `B` -/
+theorem guardBounds_sound (src : CTy) (B srcMax : Nat) (g : Guard) (sg : Bool) (m : Nat) (e : Int)
+    (hgb : guardBounds src B srcMax g = true)
+    (hpass : evalDisj src (.flt (.fin sg m e)) g.conds = .ok false)
+    (hsrc : (FVal.fin sg m e).absLe srcMax) : (FVal.fin sg m e).absLe B := by
+  simp only [guardBounds, Bool.and_eq_true, List.any_eq_true] at hgb
+  obtain ⟨⟨cu, hcu, htu⟩, ⟨cl, hcl, htl⟩⟩ := hgb
+  have hfu := evalDisj_false_mem src _ g.conds hpass cu hcu
+  have hfl := evalDisj_false_mem src _ g.conds hpass cl hcl
+  simp only [FVal.absLe] at hsrc ⊢
+  have hden := den_pos e
+  have hden' : ((pow2 (-e).toNat : Nat) : Int) = (FVal.den e : Int) := rfl
+  -- Int versions of the bound
+  have hsrcI : ((m * pow2 e.toNat : Nat) : Int) ≤ (srcMax : Int) * (FVal.den e : Int) := by
+    have : ((m * pow2 e.toNat : Nat) : Int) ≤ ((srcMax * pow2 (-e).toNat : Nat) : Int) := by exact_mod_cast hsrc
+    simpa [FVal.den] using this
+  suffices hI : ((m * pow2 e.toNat : Nat) : Int) ≤ (B : Int) * (FVal.den e : Int) by
+    have : ((m * pow2 e.toNat : Nat) : Int) ≤ ((B * pow2 (-e).toNat : Nat) : Int) := by simpa [FVal.den] using hI
+    exact_mod_cast this
+  cases sg with
+  | false =>
+    -- positive: the upper test
+    unfold upperTest at htu
+    split at htu
+    · rename_i c1 F c2 K
+      simp only [Bool.and_eq_true, decide_eq_true_eq] at htu
+      obtain ⟨⟨⟨h1, h2⟩, hF⟩, hK⟩ := htu
+      rw [evalConj_pair src _ _ _ _ _ (floatCmp_eval src _ _ _ _ h1) (floatCmp_eval src _ _ _ _ h2)] at hfu
+      simp only [Res.ok.injEq, Bool.and_eq_false_iff] at hfu
+      have hKd : (srcMax : Int) * (FVal.den e : Int) ≤ K * (FVal.den e : Int) :=
+        Int.mul_le_mul_of_nonneg_right hK (Int.le_of_lt hden)
+      have hFd : F * (FVal.den e : Int) ≤ (B : Int) * (FVal.den e : Int) :=
+        Int.mul_le_mul_of_nonneg_right hF (Int.le_of_lt hden)
+      have hnum : FVal.num false m e = ((m * pow2 e.toNat : Nat) : Int) := by simp [FVal.num]
+      rcases hfu with hgt | hle
+      · simp only [cmpF, FVal.gtInt, decide_eq_false_iff_not, hnum] at hgt
+        omega
+      · simp only [cmpF, FVal.gtInt, hnum] at hle
+        simp at hle
+        omega
+    · simp at htu
+  | true =>
+    unfold lowerTest at htl
+    split at htl
+    · rename_i c1 F c2 K
+      simp only [Bool.and_eq_true, decide_eq_true_eq] at htl
+      obtain ⟨⟨⟨h1, h2⟩, hF⟩, hK⟩ := htl
+      rw [evalConj_pair src _ _ _ _ _ (floatCmp_eval src _ _ _ _ h1) (floatCmp_eval src _ _ _ _ h2)] at hfl
+      simp only [Res.ok.injEq, Bool.and_eq_false_iff] at hfl
+      have hKd : K * (FVal.den e : Int) ≤ -(srcMax : Int) * (FVal.den e : Int) :=
+        Int.mul_le_mul_of_nonneg_right hK (Int.le_of_lt hden)
+      have hFd : -(B : Int) * (FVal.den e : Int) ≤ F * (FVal.den e : Int) :=
+        Int.mul_le_mul_of_nonneg_right hF (Int.le_of_lt hden)
+      have hnum : FVal.num true m e = -((m * pow2 e.toNat : Nat) : Int) := by simp [FVal.num]
+      have e1 : -(srcMax : Int) * (FVal.den e : Int) = -((srcMax : Int) * (FVal.den e : Int)) := Int.neg_mul _ _
+      have e2 : -(B : Int) * (FVal.den e : Int) = -((B : Int) * (FVal.den e : Int)) := Int.neg_mul _ _
+      rcases hfl with hlt | hge
+      · simp only [cmpF, FVal.ltInt, decide_eq_false_iff_not, hnum] at hlt
+        omega
+      · simp only [cmpF, FVal.ltInt, hnum] at hge
+        simp at hge
+        omega
+    · simp at htl
+
+/-- floating source, floating target: no undefined behaviour in the guards; the store is under `if (dest)`, of
+    the target's type, the target's size is returned; and unless the target format is at least as wide as the
+    source format, some guard refuses the finite values beyond the target's range -/
+def checkCaseFF (src : CTy) (c : Case) (tgt : Ty) : Bool :=
+  src.isFloat && tgt.isFloat && c.guarded && c.destGuards.isEmpty && c.ret == tgt.size && c.store == tgtCTy tgt &&
+  noFaultF src c.guards &&
+  (decide (src.fmt.maxInt ≤ c.store.fmt.maxInt) || c.guards.any (guardBounds src c.store.fmt.maxInt src.fmt.maxInt))
+
+theorem fmt_sane (t : CTy) : t.fmt.Sane := by
+  cases t <;> first | exact sane32 | exact sane64 | exact sane80
+
+theorem checkCaseFF_sound (src : CTy) (c : Case) (tgt : Ty) (x : FVal) (hc : checkCaseFF src c tgt = true)
+    (hx : x.absLe src.fmt.maxInt) :
+    (∃ e, runCase src c (.flt x) true = .err e) ∨
+    (∃ y, runCase src c (.flt x) true = .ok (some (.flt c.store y), tgt.size) ∧ y = round c.store.fmt x ∧
+      (x.isFinite = true → y.isFinite = true)) := by
+  simp only [checkCaseFF, Bool.and_eq_true, beq_iff_eq, List.isEmpty_iff, Bool.or_eq_true, decide_eq_true_eq] at hc
+  obtain ⟨⟨⟨⟨⟨⟨⟨hsf, htf⟩, hg⟩, hdg⟩, hret⟩, hst⟩, hnf⟩, hbound⟩ := hc
+  have hstf : c.store.isFloat = true := by
+    rw [hst]; cases tgt <;> simp_all [tgtCTy, CTy.isFloat, Ty.isFloat]
+  have hsup : c.supported src = true := by simp [Case.supported, hstf]
+  rcases noFault_guards src x c.guards hnf with hok | ⟨e, he⟩
+  · right
+    refine ⟨round c.store.fmt x, by simp [runCase, hsup, hok, hdg, evalGuards, doStore, hstf, hret], rfl, ?_⟩
+    intro hfin
+    cases x with
+    | nan => simp [FVal.isFinite] at hfin
+    | inf sg => simp [FVal.isFinite] at hfin
+    | fin sg m e =>
+      have hB : (FVal.fin sg m e).absLe c.store.fmt.maxInt := by
+        rcases hbound with hwide | hany
+        · simp only [FVal.absLe] at hx ⊢
+          exact Nat.le_trans hx (Nat.mul_le_mul_right _ hwide)
+        · rw [List.any_eq_true] at hany
+          obtain ⟨g, hgm, hgb⟩ := hany
+          exact guardBounds_sound src _ _ g sg m e hgb (evalGuards_ok_mem src _ c.guards hok g hgm) hx
+      obtain ⟨m', e', hr⟩ := roundFin_finite c.store.fmt (fmt_sane c.store) sg m e hB
+      simp [round, hr, FVal.isFinite]
+  · left
+    exact ⟨e, by simp [runCase, hsup, he]⟩
+
+def checkPairFF (src tgt : Ty) : Bool :=
+  match fnOf src with
+  | none => true
+  | some f =>
+    f.src == tgtCTy src &&
+    match f.lookup tgt.code with
+    | some c => checkCaseFF f.src c tgt
+    | none => !(f.resolve tgt.code ∈ f.vectors)
+
+def checkFloatSrcTable : Bool := Ty.floats.all fun s => Ty.floats.all fun tg => checkPairFF s tg
+
+theorem checkPairFF_sound (src tgt : Ty) (x : FVal) (hp : checkPairFF src tgt = true)
+    (hx : x.absLe (tgtCTy src).fmt.maxInt) :
+    (∃ e, conv src tgt (.flt x) true = .err e) ∨
+    (∃ y, conv src tgt (.flt x) true = .ok (some (.flt y), tgt.size) ∧ y = round (tgtCTy tgt).fmt x ∧
+      (x.isFinite = true → y.isFinite = true)) := by
+  unfold checkPairFF at hp
+  unfold conv
+  cases hf : fnOf src with
+  | none => left; exact ⟨.BadType, by simp⟩
+  | some f =>
+    simp only [hf, Bool.and_eq_true, beq_iff_eq] at hp
+    obtain ⟨hsrc, hp⟩ := hp
+    rw [← hsrc] at hx
+    simp only [Fn.run]
+    cases hl : f.lookup tgt.code with
+    | none =>
+      simp only [hl] at hp
+      simp at hp
+      left
+      exact ⟨f.dflt, by simp [hp]⟩
+    | some c =>
+      simp only [hl] at hp
+      have hst : c.store = tgtCTy tgt := by
+        simp only [checkCaseFF, Bool.and_eq_true, beq_iff_eq] at hp
+        exact hp.1.1.2
+      have hwf : (tgtCTy tgt).isFloat = true := by
+        simp only [checkCaseFF, Bool.and_eq_true] at hp
+        have := hp.1.1.1.1.1.1.2
+        cases tgt <;> simp_all [tgtCTy, CTy.isFloat, Ty.isFloat]
+      rcases checkCaseFF_sound f.src c tgt x hp hx with ⟨e, he⟩ | ⟨y, hy, hyr, hfin⟩
+      · left; exact ⟨e, by simp [he]⟩
+      · right
+        refine ⟨y, ?_, by rw [hyr, hst], hfin⟩
+        simp [hy, readBack, hst, hwf]
+
+/-- integer source, floating target, any in-range value: the stored value is the correctly rounded one, and finite -/
+theorem int_bound (src : Ty) (v : Int) (hs : src.isFloat = false) (hv : inRange src v) : v.natAbs ≤ 2 ^ 64 := by
+  cases src <;> simp [Ty.isFloat] at hs <;> simp only [inRange, Ty.lo, Ty.hi] at hv <;> omega
+
+theorem checkPairF_sound_any (src tgt : Ty) (v : Int) (hp : checkPairF src tgt = true)
+    (hs : src.isFloat = false) (hv : inRange src v) :
+    (∃ e, conv src tgt (.int v) true = .err e) ∨
+    (∃ y, conv src tgt (.int v) true = .ok (some (.flt y), tgt.size) ∧ y = round (tgtCTy tgt).fmt (ofInt v) ∧
+      y.isFinite = true) := by
+  unfold checkPairF at hp
+  unfold conv
+  cases hf : fnOf src with
+  | none => left; exact ⟨.BadType, by simp⟩
+  | some f =>
+    simp only [hf, Bool.and_eq_true, beq_iff_eq] at hp
+    obtain ⟨hsrc, hp⟩ := hp
+    have hr := (tgtCTy_range src v hs).mp hv
+    rw [← hsrc] at hr
+    simp only [Fn.run]
+    cases hl : f.lookup tgt.code with
+    | none =>
+      simp only [hl] at hp
+      simp at hp
+      left
+      exact ⟨f.dflt, by simp [hp]⟩
+    | some c =>
+      simp only [hl, checkCaseF, Bool.and_eq_true, Bool.not_eq_true', beq_iff_eq, List.isEmpty_iff] at hp
+      obtain ⟨⟨⟨⟨⟨⟨hsf, htf⟩, hg⟩, hdg⟩, hret⟩, hst⟩, hsome⟩ := hp
+      obtain ⟨iv, hiv⟩ := Option.isSome_iff_exists.mp hsome
+      have hsup : c.supported f.src = true := by simp [Case.supported, hsf]
+      rcases stepGuards_sound f.src c.guards (srcIv f.src) iv v hiv ⟨hr.1, hr.2⟩ with ⟨hok, _⟩ | ⟨e, he⟩
+      · right
+        have hstf : c.store.isFloat = true := by
+          rw [hst]; cases tgt <;> simp_all [tgtCTy, CTy.isFloat, Ty.isFloat]
+        have hwf : (tgtCTy tgt).isFloat = true := by rw [← hst]; exact hstf
+        have h64 : (2 : Nat) ^ 64 ≤ (tgtCTy tgt).fmt.maxInt := by
+          have he0 : 64 ≤ (tgtCTy tgt).fmt.e0 := by cases tgt <;> decide
+          have hp1 : 1 ≤ pow2 (tgtCTy tgt).fmt.p - 1 := by
+            have : pow2 1 ≤ pow2 (tgtCTy tgt).fmt.p := pow2_mono (fmt_sane _).p_pos
+            simp [pow2] at this ⊢; omega
+          rw [Fmt.maxInt_eq]
+          calc (2 : Nat) ^ 64 = pow2 64 := rfl
+            _ ≤ pow2 (tgtCTy tgt).fmt.e0 := pow2_mono he0
+            _ = 1 * pow2 (tgtCTy tgt).fmt.e0 := (Nat.one_mul _).symm
+            _ ≤ (pow2 (tgtCTy tgt).fmt.p - 1) * pow2 (tgtCTy tgt).fmt.e0 := Nat.mul_le_mul_right _ hp1
+        have hB : v.natAbs * pow2 (0 : Int).toNat ≤ (tgtCTy tgt).fmt.maxInt * pow2 (-(0 : Int)).toNat := by
+          have := int_bound src v hs hv
+          simp [pow2]; omega
+        obtain ⟨m', e', hrf⟩ := roundFin_finite (tgtCTy tgt).fmt (fmt_sane _) (decide (v < 0)) v.natAbs 0 hB
+        refine ⟨round (tgtCTy tgt).fmt (ofInt v), ?_, rfl, by simp [round, ofInt, hrf, FVal.isFinite]⟩
+        simp [runCase, hsup, hok, hdg, evalGuards, doStore, hstf, readBack, hst, hwf, hret]
+      · left
+        exact ⟨e, by simp [runCase, hsup, he]⟩
+
 end Mpt.Conv
